@@ -154,13 +154,20 @@ _STRICT_SPECS = {}
 def strict_spec_class(base=None):
     """A ProcessSpec whose explicitly declared output ports are of an application-defined port class that refuses None
     (the documented extension hook ProcessSpec.OUTPUT_PORT_TYPE); the model marks such ports with ``strict``."""
-    from plumpy import OutputPort, ProcessSpec
+    from plumpy import InputPort, OutputPort, ProcessSpec
     from plumpy.ports import PortValidationError, breadcrumbs_to_port
 
     base = base or ProcessSpec
     if base not in _STRICT_SPECS:
 
         class NotNoneOutputPort(OutputPort):
+            def validate(self, value, breadcrumbs=()):
+                if value is None:
+                    return PortValidationError('None is not a value', breadcrumbs_to_port((*breadcrumbs, self.name)))
+                return super().validate(value, breadcrumbs)
+
+        class NotNoneInputPort(InputPort):
+            # ... the same for declared input ports (ProcessSpec.INPUT_PORT_TYPE)
             def validate(self, value, breadcrumbs=()):
                 if value is None:
                     return PortValidationError('None is not a value', breadcrumbs_to_port((*breadcrumbs, self.name)))
@@ -178,7 +185,7 @@ def strict_spec_class(base=None):
                     return PortValidationError('None is not a value', breadcrumbs_to_port((*breadcrumbs, self.name)))
                 return super().validate_dynamic_ports(port_values, breadcrumbs)
 
-        _STRICT_SPECS[base] = type('StrictSpec', (base,), {'OUTPUT_PORT_TYPE': NotNoneOutputPort, 'PORT_NAMESPACE_TYPE': NotNoneNamespace})
+        _STRICT_SPECS[base] = type('StrictSpec', (base,), {'INPUT_PORT_TYPE': NotNoneInputPort, 'OUTPUT_PORT_TYPE': NotNoneOutputPort, 'PORT_NAMESPACE_TYPE': NotNoneNamespace})
     return _STRICT_SPECS[base]
 
 
@@ -409,6 +416,12 @@ def _check_dynamic(tree, value):
         raise Reject('dynamic value of wrong type')
 
 
+def _has_none(value):
+    if isinstance(value, dict):
+        return any(_has_none(sub) for sub in value.values())
+    return value is None
+
+
 def validate(tree, values):
     """Raise Reject iff the (parsed) mapping does not conform to the namespace."""
     if values is ABSENT or not values:
@@ -426,6 +439,8 @@ def validate(tree, values):
             _check_port(sub, value)
     if rest and not effective_dynamic(tree):
         raise Reject('undeclared keys in a non-dynamic namespace')
+    if tree.get('strict_ns') and _has_none(rest):
+        raise Reject('None refused by the namespace class')
     if tree['valid_type'] is not None:
         _check_dynamic(tree, rest)
     validator = VALIDATORS[tree['validator']]
